@@ -813,5 +813,5 @@ class C17(Prop):
         return [LookupCorr()]
 
 
-READY = False
+READY = True
 PROP = C17()
